@@ -199,6 +199,7 @@ class PadMaskedH(_Base):
         c = self.cfg
         N, T, F, bf = c["N"], c["T"], c["F"], c["batch_first"]
         eng.lazy_select = True
+        eng.adversarial_ties = True   # compaction must not lean on the (unspecified) tie order of a non-stable sort
         cells, x = self._x_sym(eng, N, T, F)
         mk = [[eng.bool(f"m{n}_{t}") for t in range(T)] for n in range(N)]
         mask = eng.tensor([b for r in mk for b in r], (N, T), torch.bool)
@@ -228,10 +229,25 @@ class PadMaskedH(_Base):
         return dict(outputs=out.vals(), viol=viol)
 
     def concrete(self, vals):
+        out = self._concrete(vals, 0)
+        if not out["failures"]:
+            # the property holds for every length: the same rows repeated to more than 16 positions (torch's sorts are only accidentally stable on
+            # short rows, so a dependence on tie order found by the solver shows on the real library only there)
+            out2 = self._concrete(vals, 6)
+            if out2["failures"]:
+                return dict(outputs=out["outputs"], failures=[f"(rows repeated 7 times, T={7 * self.cfg['T']}) {f}"[:400] for f in out2["failures"]])
+        return out
+
+    def _concrete(self, vals, extra):
         c = self.cfg
         N, T, F, bf = c["N"], c["T"], c["F"], c["batch_first"]
         cells, x = self._x_real(vals, N, T, F)
         mk = [[bool(vals[f"m{n}_{t}"]) for t in range(T)] for n in range(N)]
+        if extra:
+            cells = [row * (extra + 1) for row in cells]
+            mk = [row * (extra + 1) for row in mk]
+            x = torch.cat([x] * (extra + 1), 1)
+            T = T * (extra + 1)
         mask = torch.tensor(mk).reshape(N, T)
         if not bf:
             x, mask = x.transpose(0, 1), mask.transpose(0, 1)
